@@ -35,7 +35,7 @@ def run_histories(ck, alphabet, depth, count, rng, precs=("d",), threads=(1, 2, 
     items = []
     for i, h in enumerate(sample):
         prec = precs[i % len(precs)]
-        if prec in ("c", "z") and i % 8 != 0:
+        if prec in ("c", "z") and (i // len(precs)) % 3 != 0:
             # complex CONJ is a recorded known finding (F16): keep a few such histories to re-confirm it,
             # and let the others exercise the transposed solve instead so that the rest of the history is validated
             h = [dict(c, trans="T") if c.get("trans") == "C" else c for c in h]
